@@ -473,3 +473,7 @@ def run(rep, tier):
         rep.call(none_none, rep, prog, "C12.none-none")
         rep.call(supersampling_guard, rep, prog, "C12.supersampling-guard")
         rep.call(skip_arm, rep, prog, "C12.skip-arm")
+        # FitIntoDestination with a destination of the source's size: the fitted box must be the
+        # whole source exactly (fl(fl(w/h)*h) is one ulp off w for ~8% of the sizes)
+        from . import c15
+        rep.call(c15.inside, rep, prog, "C12.fit-exact")
